@@ -217,12 +217,10 @@ Section Live.
     std_base_msg e ++ match hint_of e with Some h => h | None => [] end.
   Definition std_tb (fs : list live_frame) (e : live_exc) : tb :=
     mkTb (map std_frame fs) (std_type e) (std_msg e).
-  (* the ordinary case: str(value) works and the interpreter shows just "Type: str(value)" *)
+  (* the ordinary case: the interpreter shows just "Type: message" (message = str(value), or the
+     placeholder when __str__ raises) -- no display-time suggestion *)
   Definition plain_exc (e : live_exc) : bool :=
-    match ex_str e with
-    | Some s => str_eqb (ex_shown e) (exc_text (std_type e) s)
-    | None => false
-    end.
+    str_eqb (ex_shown e) (exc_text (std_type e) (std_base_msg e)).
 End Live.
 
 (* ---- the interpreter's rendering as Python >= 3.11 really prints it: identical consecutive
